@@ -7,7 +7,7 @@ use vcore::driver::{BothBuilds, Ctx, Outcome, PropDef, Tier, Violation};
 use vcore::ref_pack::{self, ArcLayout, ArcTweak};
 use vcore::{util, Tally};
 
-const NAMES: [&str; 3] = ["ArcTest1.bin", "日本.bin.lz", "x"];
+const NAMES: [&str; 3] = ["ArcTest1.bin", "日本.bin.lz", "ﾄｱ"];
 const LENS: [usize; 6] = [0, 1, 3, 4, 5, 32];
 
 fn body(i: usize, len: usize) -> Vec<u8> {
